@@ -6,6 +6,22 @@ ROOT = os.path.dirname(os.path.dirname(os.path.abspath(__file__)))
 ALL = ["C%02d" % i for i in range(1, 21)]
 
 CLAIMED = {
+ "C19": dict(
+  text="Lean 4 theorems over Save/Delete as system-call programs on a directory: for every previous content, value, buffer split and stop "
+       "point (before/after any call, inside a data write after any byte count) the key loads as its complete old or complete new value and "
+       "no other key changes (C19_save_atomic, C19_delete_atomic); every write and the fsync precede the rename; a failed Save keeps the old "
+       "value and removes the spool; List never reports a spool file and everything listed loads. Tied to mqtt.FileSystem by comparing the "
+       "strace system-call sequence with the model program and by real SIGKILL injection at every call, RLIMIT_FSIZE cuts at byte counts and "
+       "EIO injection, each followed by List/Load in a fresh process.",
+  design="6/C19", technique="Lean 4 proof (crash-prefix lemma over syscall programs) + strace sequence correspondence + kill/error injection",
+  note="partial: A-os (atomic rename/unlink/open, data readable after a process stop; no power loss); needs ptrace; concurrent Save/Load mixes are not run yet"),
+ "C20": dict(
+  text="Lean 4 theorems over the doubles as pure functions: the publish mock records a failure iff no expectation is left or message or "
+       "topic differs (each independently), closed quit is ErrCanceled and uncounted, cleanup fails iff the counted calls differ from the "
+       "expectations, subscribe mocks never index past their expectations, the exchange stub closes iff the accepted script does not end in "
+       "ErrClosed or an indefinite block. Exhaustive small-alphabet sequences run against the real mqtttest package with a recording testing.TB.",
+  design="6/C20", technique="Lean 4 proof (decision logic) + exhaustive small-scope differential correspondence",
+  note="'private copies' is checked operationally only (no aliasing in the pure model)"),
  "C04": dict(
   text="Lean 4 theorems on the inbound handlers of Model.Session: a QoS 2 PUBLISH is returned only when no marker exists for its identifier "
        "(C04_once_per_cycle: the marker lives in the Persistence, so reconnects and restarts keep suppressing), every suppressed duplicate owes "
